@@ -348,6 +348,11 @@ func cmdCheck(args []string) int {
 
 func report(run *checkRun, wall float64, verbose, keep bool, engineErr bool) int {
 	prop := run.prop
+	if run.tier == "thorough" {
+		replayDeadline = time.Now().Add(600 * time.Second)
+	} else {
+		replayDeadline = time.Now().Add(90 * time.Second)
+	}
 	findings := loadFindings()
 	known := map[string]Finding{}
 	for _, f := range findings {
@@ -511,6 +516,8 @@ func writeEvidence(run *checkRun, total, discharged, knownHits, violations int, 
 			"functions_under_contract": fns,
 			"inlined_callees":          sortedKeys(inlined),
 			"solver_wins":              run.wins,
+			"obligations_by_kind":      kindCounts(run.obls),
+			"slowest_obligations":      slowest(run.obls, 5),
 			"solver_seconds":           round3(run.solveSec),
 			"load_seconds":             round3(run.prog.loadSecs),
 			"samples":                  samples,
@@ -525,25 +532,49 @@ func writeEvidence(run *checkRun, total, discharged, knownHits, violations int, 
 			"bounded_standins":         run.bounded,
 			"library_model_conformance": run.conformance,
 		},
-		"assumptions": assumptionsFor(run.prop),
+		"assumptions": assumptionsFor(run.prop, tb),
 	}
 	os.MkdirAll(filepath.Join(verifDir, "evidence"), 0o755)
 	data, _ := json.MarshalIndent(ev, "", " ")
 	os.WriteFile(filepath.Join(verifDir, "evidence", run.prop+".json"), append(data, '\n'), 0o644)
 }
 
-func assumptionsFor(prop string) []string {
+func assumptionsFor(prop string, trusted []string) []string {
 	base := []string{
 		"machine integers are modelled exactly as bit-vectors; slice lengths/capacities are assumed <= 2^40",
 		"sequential semantics: goroutines are not interleaved; spawned functions are verified separately",
 		"extern functions without contract: results unconstrained, only memory directly reachable from pointer/slice arguments is havocked",
 		"termination is not verified",
 	}
+	// the statement of what this property's claim rests on (claims.json, also in MANIFEST level_note)
+	if data, err := os.ReadFile(filepath.Join(verifDir, "claims.json")); err == nil {
+		var m map[string]map[string]string
+		if json.Unmarshal(data, &m) == nil && m[prop]["note"] != "" {
+			base = append(base, m[prop]["note"])
+		}
+	}
 	data, err := os.ReadFile(filepath.Join(verifDir, "contracts", "assumptions.json"))
 	if err == nil {
 		var m map[string][]string
 		if json.Unmarshal(data, &m) == nil {
 			base = append(base, m[prop]...)
+		}
+	}
+	// every unchecked ingredient this run actually used
+	for _, t := range trusted {
+		switch {
+		case strings.HasPrefix(t, "contract:extern:"), strings.HasPrefix(t, "contract:iface:"), strings.HasPrefix(t, "contract:functype:"):
+			base = append(base, "assumed contract on a dependency or callback (not proved): "+strings.SplitN(t, ":", 3)[2])
+		case strings.HasPrefix(t, "model:"):
+			base = append(base, "native model of a library function (conformance-tested in the thorough tier where executable): "+t[6:])
+		case strings.HasPrefix(t, "pure:"):
+			base = append(base, "library function treated as a pure uninterpreted function: "+t[5:])
+		case strings.HasPrefix(t, "havoc:"):
+			base = append(base, "library function without contract, results and reachable memory havocked, assumed not to panic: "+t[6:])
+		case strings.HasPrefix(t, "noreturn:"):
+			base = append(base, "assumed not to return: "+t[9:])
+		case strings.HasPrefix(t, "devirtualized:"):
+			base = append(base, "interface calls resolved to the single implementation in the repository: "+t[14:])
 		}
 	}
 	return base
@@ -680,14 +711,23 @@ func cmdLock(args []string) int {
 	os.WriteFile(filepath.Join(verifDir, "obligations.lock"), []byte(strings.Join(out, "\n")+"\n"), 0o644)
 	// declared variables of every function under contract (lets checks follow pure renames)
 	var ll []string
+	lockedFns := map[string]bool{}
 	for _, k := range sortedKeys(prog.contracts.ByKey) {
 		c := prog.contracts.ByKey[k]
 		if c.Kind != "func" {
 			continue
 		}
 		if fn := prog.funcByKey[c.Key]; fn != nil {
-			for _, d := range prog.declaredLocals(fn) {
-				ll = append(ll, c.Key+"\t"+d.Name+"\t"+d.Type)
+			// the function and the functions enclosing it (closures refer to captured variables)
+			for f := fn; f != nil; f = f.Parent() {
+				k := prog.funcKey(f)
+				if lockedFns[k] {
+					continue
+				}
+				lockedFns[k] = true
+				for _, d := range prog.declaredLocals(f) {
+					ll = append(ll, k+"\t"+d.Name+"\t"+d.Type)
+				}
 			}
 		}
 	}
@@ -854,4 +894,27 @@ func isTrusted(c *Contract) bool {
 		}
 	}
 	return false
+}
+
+func kindCounts(obls []*Obligation) map[string]int {
+	m := map[string]int{}
+	for _, o := range obls {
+		m[o.Kind]++
+	}
+	return m
+}
+
+func slowest(obls []*Obligation, n int) []map[string]any {
+	var os []*Obligation
+	for _, o := range obls {
+		if o.Result != nil {
+			os = append(os, o)
+		}
+	}
+	sort.SliceStable(os, func(i, j int) bool { return os[i].Result.Secs > os[j].Result.Secs })
+	var out []map[string]any
+	for i := 0; i < len(os) && i < n; i++ {
+		out = append(out, map[string]any{"obligation": os[i].Name, "secs": round3(os[i].Result.Secs), "solver": os[i].Result.Solver, "status": os[i].Result.Status})
+	}
+	return out
 }
